@@ -430,9 +430,14 @@ func genCase(t *rapid.T) (Case, map[string]bool) {
 			c.Ops = append(c.Ops, o)
 		}
 		adj := gen.Adj(t, "sp.adj")
+		var edit *gen.GradSetup
 		if rapid.IntRange(0, 2).Draw(t, "grad") == 0 {
 			blk, g := gen.GradientBlock(t, gen.SimpleMatrix, true)
 			c.Ops = append(c.Ops, blk...)
+			if g.Break == "" && g.Bits.NStops >= 2 {
+				gg := g
+				edit = &gg
+			}
 			gs.l("gradient")
 			if g.Break != "" {
 				gs.l("gradient-broken:" + g.Break)
@@ -447,6 +452,7 @@ func genCase(t *rapid.T) (Case, map[string]bool) {
 			cSel = (g.Reg + adj) & 63
 			lastIncr = false
 			if rapid.IntRange(0, 3).Draw(t, "gradlike") == 0 {
+				edit = nil
 				// the same bits with a non-zero alpha: not a gradient (a gradient has
 				// alpha 0) and not premultiplied, so the path must be skipped even
 				// though the registers it names hold a perfectly valid gradient
@@ -455,7 +461,11 @@ func genCase(t *rapid.T) (Case, map[string]bool) {
 				c.Ops = append(c.Ops, ops.OpSetCReg(adj, false, ops.RGBAv(gl)))
 				gs.l("gradient-looking-colour-with-alpha")
 			} else if other, ok := freeRegister(g); ok {
-				switch rapid.IntRange(0, 5).Draw(t, "gradvariant") {
+				gv := rapid.IntRange(0, 5).Draw(t, "gradvariant")
+				if gv <= 2 {
+					edit = nil
+				}
+				switch gv {
 				case 0:
 					// another register receives the gradient value through a blend that copies it
 					// (weight 255 or 0, the partner transparent): the path is filled from that register
@@ -505,6 +515,27 @@ func genCase(t *rapid.T) (Case, map[string]bool) {
 			c.Ops = append(c.Ops, gen.DrawOp(t, k, func(t *rapid.T, l string) float32 { return gen.Grid(t, l, 40) }, "d"))
 		}
 		c.Ops = append(c.Ops, ops.OpDraw(ops.ClosePathEndPath))
+		if edit != nil && rapid.IntRange(0, 2).Draw(t, "edit") == 0 {
+			// the stops of the gradient just drawn are edited register by register: an early stop
+			// gets another colour and a later one a colour that is not premultiplied; a path (not
+			// drawn); the later stop gets its colour back; a path, drawn with the edited gradient
+			n := int(edit.Bits.NStops)
+			i := rapid.IntRange(0, n-2).Draw(t, "edit.i")
+			j := rapid.IntRange(i+1, n-1).Draw(t, "edit.j")
+			fresh := color.RGBA{0x21, 0x43, 0x65, 0x87}
+			if edit.Colors[i] == fresh {
+				fresh = color.RGBA{0x01, 0x02, 0x03, 0xff}
+			}
+			creg := func(k int) uint8 { return (edit.Bits.CBase + uint8(k)) & 63 }
+			path := []ops.Op{ops.OpSetCSel(edit.Reg), ops.OpStartPath(0, 1, 2), ops.OpDraw(ops.AbsLineTo, 9, 3), ops.OpDraw(ops.AbsLineTo, 4, 11), ops.OpDraw(ops.ClosePathEndPath)}
+			c.Ops = append(c.Ops, ops.OpSetCSel(creg(i)), ops.OpSetCReg(0, false, ops.RGBAv(fresh)),
+				ops.OpSetCSel(creg(j)), ops.OpSetCReg(0, false, ops.RGBAv(color.RGBA{0xff, 0x10, 0x10, 0x20})))
+			c.Ops = append(c.Ops, path...)
+			c.Ops = append(c.Ops, ops.OpSetCSel(creg(j)), ops.OpSetCReg(0, false, ops.RGBAv(edit.Colors[j])))
+			c.Ops = append(c.Ops, path...)
+			cSel, lastIncr = edit.Reg, false
+			gs.l("gradient-stops-edited-register-by-register-between-paths")
+		}
 	}
 	return c, gs.labels
 }
